@@ -23,11 +23,15 @@
               | (1 q)                   one per call of the package-level sleep
 
    CASE    (2 x)                      DCMotor._clamp_speed on a float x that may be an IEEE special
-   OUTPUT  the xfloat result          xfloat = (0 (num den)) finite | (1) NaN | (2) +inf | (3) -inf
+   OUTPUT  (0 xfloat) returned | (1 0) raised ValueError
+                                      xfloat = (0 (num den)) finite | (1) NaN | (2) +inf | (3) -inf
 
-   CASE    (3 ctor_args (op1 ...) (k a b))   run the ops, then ONE call with a possibly special duration:
-             k = 0: run_for(duration = xfloat a, speed = pynum b)
-             k = 1: ramp(target = pynum a, duration = xfloat b)
+   CASE    (3 ctor_args (op1 ...) last)   run the ops, then ONE call whose arguments may be special:
+             last = (0 d v) run_for(duration = xfloat d, speed = xarg v)
+                  | (1 t d) ramp(target = xarg t, duration = xfloat d)
+                  | (2 v)   set_speed(xarg v)
+                  | (3 v)   backward(xarg v)
+             xarg = (0 pynum) | (1 xfloat)
    OUTPUT  (snapshot events res)      of that last call; res = (0) returned | (1 kind),
                                       kind = 0 ValueError | 1 TypeError | 2 OverflowError
    An undecodable case answers (2). *)
@@ -133,6 +137,13 @@ Definition wxres (r : xresult) : wv :=
   | XRaised k => WL [WI 1; WI (match k with XValueError => 0 | XTypeError => 1 | XOverflowError => 2 end)]
   end.
 
+Definition un_xarg (v : wv) : option xarg :=
+  match v with
+  | WL [WI 0; p] => match un_pynum p with Some p' => Some (XNum p') | None => None end
+  | WL [WI 1; x] => match un_xfloat x with Some x' => Some (XSpec x') | None => None end
+  | _ => None
+  end.
+
 Definition run_x (args : wv) (ops : list wv) (last : wv) : wv :=
   match args with
   | WL [a; b; c] =>
@@ -148,15 +159,19 @@ Definition run_x (args : wv) (ops : list wv) (last : wv) : wv :=
                     let '(m', evs, res) := r in WL [wmotor m'; WL (map wmev evs); wxres res] in
                   match last with
                   | WL [WI 0; d; v] =>
-                      match un_xfloat d, un_pynum v with
-                      | Some d', Some v' => out (run_for_x m d' v')
+                      match un_xfloat d, un_xarg v with
+                      | Some d', Some v' => out (mstep_x m (XRunFor d' v'))
                       | _, _ => wbad
                       end
                   | WL [WI 1; t; d] =>
-                      match un_pynum t, un_xfloat d with
-                      | Some t', Some d' => out (ramp_x m t' d')
+                      match un_xarg t, un_xfloat d with
+                      | Some t', Some d' => out (mstep_x m (XRamp t' d'))
                       | _, _ => wbad
                       end
+                  | WL [WI 2; v] =>
+                      match un_xarg v with Some v' => out (mstep_x m (XSetSpeed v')) | None => wbad end
+                  | WL [WI 3; v] =>
+                      match un_xarg v with Some v' => out (mstep_x m (XBackward v')) | None => wbad end
                   | _ => wbad
                   end
               end
@@ -169,7 +184,11 @@ Definition run_x (args : wv) (ops : list wv) (last : wv) : wv :=
 Definition run (v : wv) : wv :=
   match v with
   | WL [WI 1; args; WL ops] => run_motor args ops
-  | WL [WI 2; x] => match un_xfloat x with Some x' => wxfloat (xclamp x') | None => wbad end
+  | WL [WI 2; x] =>
+      match un_xfloat x with
+      | Some x' => match xclamp x' with Some y => WL [WI 0; wxfloat y] | None => WL [WI 1; WI 0] end
+      | None => wbad
+      end
   | WL [WI 3; args; WL ops; last] => run_x args ops last
   | _ => wbad
   end.
